@@ -237,7 +237,13 @@ def random_configs(pid, tier, seed):
     if not q:
         base += [dict(tick=3, duration=10 if pid == "C11" else 100000, epoch=7),
                  dict(tick=7, duration=20 if pid == "C11" else 100000, epoch=1234567)]
-    return [dict(c, runs=runs, seed=seed * 131 + i, mode=mode) for i, c in enumerate(base)]
+    cfgs = [dict(c, runs=runs, seed=seed * 131 + i, mode=mode) for i, c in enumerate(base)]
+    if pid == "C05":
+        # ticks that are not a whole number of milliseconds (time unit 500 us / 250 us: ticks of 2.5 ms and 0.75 ms):
+        # only Sim::elapsed / since_epoch are read and no node is registered, see the `subms` mode of the driver
+        cfgs += [dict(tick=5, duration=100000, epoch=1000, runs=10, seed=seed * 131 + 50, mode="subms", unit_us=500),
+                 dict(tick=3, duration=100000, epoch=86400000, runs=10, seed=seed * 131 + 51, mode="subms", unit_us=250)]
+    return cfgs
 
 
 # ---------------------------------------------------------------------------
@@ -434,8 +440,10 @@ def run(pid, tier, seed, replay=None):
               "spec->code replays use the registration host order and a deterministic tie-break between tasks of "
               "one host; random host order is covered by the exhaustive runs (all permutations) and the recorded traces"]
     if pid == "C05":
-        ck.assumptions = ["whole-millisecond ticks, sleeps and epochs (tokio's paused clock has 1 ms resolution; "
-                          "fractional ticks are outside what the crate documents, DESIGN 6 C05 Bounds)",
+        ck.assumptions = ["whole-millisecond ticks, sleeps and epochs wherever programs read clocks (tokio's paused clock has "
+                          "1 ms resolution; what programs observe under fractional ticks is outside what the crate documents, "
+                          "DESIGN 6 C05 Bounds); ticks of 2.5 ms and 0.75 ms are driven with no node registered and only "
+                          "Sim::elapsed / since_epoch read between steps",
                           "clock readings are taken by programs right after sleep / timeout / interval / sleep_until "
                           "and by the test thread between calls; readings taken by destructors while Sim::crash runs "
                           "are outside the statement (they are not inside any step)",
